@@ -17,14 +17,15 @@
  *               scratch directory == baseline (UXF socket files, control files), every failed call reported
  *               NULL/-1 with errno != 0, no abort()/assert (abort is interposed and turned into a verdict that
  *               names the assertion), heap == baseline.  If the heap differs, the SAME faults are injected
- *               again, deterministically, in two further repetitions: a leak grows by the same amount in each
- *               of them, a first-use cache does not.
+ *               again, deterministically, in three further repetitions: a leak makes the heap grow in each of
+ *               them, a first-use cache does not.  With two faults injected, each finding is re-derived with
+ *               one of them alone (in the same process) so that its signature names the fault that causes it.
  *   fork        forkat=k: at the k-th API boundary the process forks; the child calls xcm_cleanup on every live
  *               socket (its descriptor table must be back at the baseline, the files must stay); the parent
  *               then goes on: nobody may have seen anything, the descriptors must still wake their owner, the
  *               files are still there.
  *
- * params: tp=<ux|uxf|tcp|tls|utls|btcp|btls> sc=<scenario> [forkat=k] [certs=<dir>]
+ * params: tp=<ux|uxf|tcp|tls|utls|btcp|btls> sc=<scenario> [ctl=on|off|notdir|unwritable] [forkat=k] [certs=<dir>] [hreps=n]
  */
 #define _GNU_SOURCE
 #include "hcommon.h"
@@ -50,7 +51,7 @@ static char g_tp[16], g_sc[32], g_certs[256];
 static char g_dir[128];            /* per-pid scratch directory */
 static char g_ctldir[160];
 static char g_ip[32];              /* a loopback address unique to this process */
-static int g_tcpish, g_tlsish, g_bytestream, g_is_ux, g_is_uxf, g_is_utls;
+static int g_bytestream, g_is_ux, g_is_uxf;
 static int g_forkat;
 static int g_rep;                  /* repetition counter (addresses differ between repetitions) */
 static pid_t g_pid;
@@ -1425,9 +1426,6 @@ static void scenario(const char *params)
     g_forkat = (int)param_int(params, "forkat", 0);
     g_is_ux = !strcmp(g_tp, "ux");
     g_is_uxf = !strcmp(g_tp, "uxf");
-    g_is_utls = !strcmp(g_tp, "utls");
-    g_tcpish = !g_is_ux && !g_is_uxf;
-    g_tlsish = !strcmp(g_tp, "tls") || g_is_utls || !strcmp(g_tp, "btls");
     g_bytestream = !strcmp(g_tp, "btcp") || !strcmp(g_tp, "btls");
     g_pid = getpid();
     snprintf(g_ip, sizeof g_ip, "127.%d.%d.1", 64 + ((g_pid >> 8) & 0x7f), g_pid & 0xff);
